@@ -25,15 +25,49 @@ def pyInt (v : Val) : Except Exc Int :=
       | none => .error ⟨"ValueError", "~invalid literal for int()"⟩
   | _ => .error ⟨"TypeError", "~int() argument must be a string, a bytes-like object or a real number"⟩
 
-/-- `float(x)` for the modelled kinds; strings only when they are integer literals. -/
+/-- `[+-]digits[.digits]` (at least one digit): the mantissa as an integer and the number of fractional digits. -/
+def decimalText? (cs : List Char) : Option (Int × Nat) :=
+  let (neg, cs) : Bool × List Char := match cs with
+    | '-' :: r => (true, r)
+    | '+' :: r => (false, r)
+    | r => (false, r)
+  let ip := cs.takeWhile Char.isDigit
+  let fp : Option (List Char) := match cs.dropWhile Char.isDigit with
+    | '.' :: r => some r
+    | [] => some []
+    | _ => none
+  match fp with
+  | none => none
+  | some fr =>
+    if fr.all Char.isDigit && decide (ip.length + fr.length > 0) then
+      let m : Nat := (ip ++ fr).foldl (fun acc c => acc * 10 + (c.toNat - '0'.toNat)) 0
+      some (if neg then -(m : Int) else (m : Int), fr.length)
+    else none
+
+/-- `float(text)`: an integer text, or a decimal text whose value is a binary fraction that fits a double's
+    mantissa (`'7.5'`, `'0.25'`, `'2.0'`) - exactly that number; blanks around it are stripped. A text that
+    `float()` does accept in a way not modelled here (a decimal that needs rounding such as `'0.1'`, an exponent,
+    digits grouped by `_`, `inf`, `nan`) leaves the domain (`OutOfDomain`: the driver rejects the case); every
+    other text is the ValueError of `float()`. -/
+def floatOfText (s : String) : Except Exc Num :=
+  let t := ((s.toList.dropWhile Char.isWhitespace).reverse.dropWhile Char.isWhitespace).reverse
+  match decimalText? t with
+  | some (m, d) =>
+    if m % (5 ^ d : Nat) == 0 && decide ((m / (5 ^ d : Nat)).natAbs < 2 ^ 53) then .ok ⟨m / (5 ^ d : Nat), d, true⟩
+    else .error ⟨"OutOfDomain", "float() of a decimal text that needs rounding"⟩
+  | none =>
+    let low := (t.filter fun c => c != '+' && c != '-').map Char.toLower
+    if t.any Char.isDigit || low == "inf".toList || low == "infinity".toList || low == "nan".toList then
+      .error ⟨"OutOfDomain", "float() of a text in a form not modelled"⟩
+    else .error ⟨"ValueError", "~could not convert string to float"⟩
+
+/-- `float(x)` for the modelled kinds. -/
 def pyFloat (v : Val) : Except Exc Num :=
   match v with
   | .int i => .ok ⟨i, 0, true⟩
   | .bool b => .ok ⟨if b then 1 else 0, 0, true⟩
   | .flt n k => .ok ⟨n, k, true⟩
-  | .str s => match s.trimAscii.toString.toInt? with
-      | some i => .ok ⟨i, 0, true⟩
-      | none => .error ⟨"ValueError", "~could not convert string to float"⟩
+  | .str s => floatOfText s
   | _ => .error ⟨"TypeError", "~float() argument must be a string or a real number"⟩
 
 /-- `get_formatted_as_type(v, out_type=int)`. -/
@@ -84,27 +118,39 @@ def resetCounters (fr : Frame) (c : CofCfg) (s : St) : St :=
   let ctx := if Ctx.get? ctx c.key = some c.original then ctx else Ctx.set ctx c.key c.original
   { s with ctx := ctx }
 
+/-- the loop-counter part of `Step.reset_context_counters` (everything before its `assert`). -/
+def resetLoopCounters (fr : Frame) (s : St) : St :=
+  let ctx := s.ctx
+  let ctx := match fr.whileC with | some w => Ctx.set ctx "whileCounter" (.int w) | none => ctx
+  let ctx := match fr.forI with | some x => Ctx.set ctx "i" x | none => ctx
+  let ctx := match fr.retryC with | some r => Ctx.set ctx "retryCounter" (.int r) | none => ctx
+  { s with ctx := ctx }
+
 /-- `Step.invoke_step`: run the step module's body; a `Call` runs the called groups through the
-    current pipeline's runner (`callee`), restores the counters (always), and maps the outcome:
+    current pipeline's runner (`callee`), restores the counters (always: `finally`), and maps the outcome:
     an error is wrapped in `HandledError` (`handled = true`); control-of-flow instructions and
-    Stop pass unchanged (fix e55e305). -/
+    Stop pass unchanged (fix e55e305). `reset_context_counters` asserts `call.original_config[1]`
+    after it wrote the loop counters back: for a falsy raw configuration (`call: ''`, `call: []`)
+    that AssertionError, raised inside the `finally`, replaces whatever the called groups ended
+    with - it leaves the step as a plain (not yet recorded) error, the `call` key not restored. -/
 def invokeStep (fr : Frame) (body : Body) (callee : CofCfg → Body) : Body := fun s =>
   match body s with
   | (s1, .call c) =>
     let (s2, r) := callee c s1
-    let s3 := resetCounters fr c s2
-    match r with
-    | .err e _ => (s3, .err e true)
-    | other => (s3, other)
+    if c.original.truthy then
+      let s3 := resetCounters fr c s2
+      match r with
+      | .err e _ => (s3, .err e true)
+      | other => (s3, other)
+    else
+      match r with
+      | .outOfFuel => (s2, .outOfFuel)
+      | _ => raiseNew (resetLoopCounters fr s2) "AssertionError" ""
   | other => other
 
 /-! ### retry -/
 
-structure RetryRt where          -- what `retry_loop` evaluates once, up front
-  max : Option Nat               -- `None`/0 = unbounded
-  backoff : BackoffState
-
-/-- `error_name in formatted_list` -/
+/-- `error_name in formatted_list` (a list: membership; a string: substring - Python's `in`). -/
 def nameIn (name : String) (lst : Val) : Except Exc Bool := pyIn (.str name) lst
 
 /-- The stopOn / retryOn decision of `exec_iteration` for error name `n`:
@@ -134,9 +180,14 @@ def retryFilters (cfg : RetryCfg) (s : St) (n : String) : Except Exc Bool :=
 
 def numToVal (x : Num) : Val := x.toVal
 
-/-- `poll.while_until_true(interval=backoff, max_attempts=max)(exec_iteration)`:
-    attempt `k`, then either finish, or sleep `interval(k)` and go on. -/
-def retryIter (cfg : RetryCfg) (fr : Frame) (inner : Frame → Body) (max : Option Nat) :
+/-- `poll.while_until_true(interval=backoff, max_attempts=max)(exec_iteration)` followed by
+    `assert is_retry_ok` of `retry_loop`: attempt `k`; an error of the `max`-th attempt (`max` truthy)
+    and an error the filters stop propagate; otherwise the result is False: the interval is computed
+    (always - the callable is called before `max_attempts` is looked at), then either
+    `time.sleep(interval)` and the next attempt (`max_attempts` falsy, or `k < max_attempts`), or the
+    loop breaks with False and the `assert` fails (only reachable for a negative `max`).
+    `time.sleep` of a negative duration raises ValueError. -/
+def retryIter (cfg : RetryCfg) (fr : Frame) (inner : Frame → Body) (max : Option Int) :
     Nat → Nat → BackoffState → Body
   | 0, _, _ => fun s => (s, .outOfFuel)
   | fuel + 1, k, bo => fun s =>
@@ -145,17 +196,45 @@ def retryIter (cfg : RetryCfg) (fr : Frame) (inner : Frame → Body) (max : Opti
     let (s1, r) := inner { fr with retryC := some k } s0
     match r with
     | .err e handled =>
-      let atMax := match max with | some m => m != 0 && k == m | none => false
+      let atMax := match max with | some m => m != 0 && (k : Int) == m | none => false
       if atMax then (s1, .err e handled)
       else
         match retryFilters cfg s1 e.name with
         | .error x => raiseExc s1 x
         | .ok true => (s1, .err e handled)
         | .ok false =>
-          -- result False: compute the interval, sleep, next attempt
+          -- result False: compute the interval; sleep and go on, or break
           let (d, bo', rnd') := interval bo k s1.rnd
-          let s2 := { s1 with rnd := rnd', sleeps := s1.sleeps ++ [numToVal d] }
-          retryIter cfg fr inner max fuel (k + 1) bo' s2
+          let goOn := match max with | some m => m == 0 || (k : Int) < m | none => true
+          if goOn then
+            if d.n < 0 then raiseNew { s1 with rnd := rnd' } "ValueError" "sleep length must be non-negative"
+            else
+              let s2 := { s1 with rnd := rnd', sleeps := s1.sleeps ++ [numToVal d] }
+              retryIter cfg fr inner max fuel (k + 1) bo' s2
+          else raiseNew { s1 with rnd := rnd' } "AssertionError" ""
+    | other => (s1, other)
+
+/-- The same loop around a back-off callable whose every call goes wrong (a list `sleep` with a
+    strategy that multiplies it, a `base` that is no number): the first failed attempt that would be
+    retried ends the loop. `yields = true`: the call returns a non-number (no exception yet): then
+    `time.sleep` raises TypeError - unless `while_until_true` breaks first (negative `max`), and the
+    `assert` fails; `yields = false`: the call itself raises TypeError. -/
+def retryFaulty (cfg : RetryCfg) (fr : Frame) (inner : Frame → Body) (max : Option Int) (yields : Bool) : Body :=
+  fun s =>
+    let s0 := { s with ctx := Ctx.set s.ctx "retryCounter" (.int 1) }
+    let (s1, r) := inner { fr with retryC := some 1 } s0
+    match r with
+    | .err e handled =>
+      let atMax := match max with | some m => m != 0 && (1 : Int) == m | none => false
+      if atMax then (s1, .err e handled)
+      else
+        match retryFilters cfg s1 e.name with
+        | .error x => raiseExc s1 x
+        | .ok true => (s1, .err e handled)
+        | .ok false =>
+          let goOn := match max with | some m => m == 0 || (1 : Int) < m | none => true
+          if yields && !goOn then raiseNew s1 "AssertionError" ""
+          else raiseNew s1 "TypeError" "~the back-off interval is not a number"
     | other => (s1, other)
 
 /-- values → numbers for the back-off constructor; `none` = outside the modelled domain. -/
@@ -166,15 +245,104 @@ def sleepNums (v : Val) : Option (Num × Option (List Num)) :=
     if ns.length == xs.length then some (numZero, some ns) else none
   | other => (other.num?).map fun n => (n, none)
 
+/-- `backoff_cache.get_backoff(name)`. -/
+inductive BackoffLookup where
+  | kind (k : BackoffKind)
+  | fail (name msg : String)
+  | outside                       -- a dotted name the model does not resolve (a custom callable)
+  deriving Repr, DecidableEq
+
+/-- names of module `vprobe` (harness/probe/vprobe.py) that exist - none of them a back-off class. -/
+def vprobeAttrs : List String := ["TRACE", "MISSING", "ProbeError", "OtherError", "_cls", "run_step", "builtins"]
+
+/-- `BackoffCache.get_backoff` / `load_backoff_callable`: the six built-ins by bare name; another bare
+    name is a ValueError; a dotted name `module.attr` is imported (`nomodule…` does not exist,
+    `vprobe` has the attributes listed); a name that is no string fails at the cache's dict look-up
+    (unhashable) or at `name.rpartition`. -/
+def lookupBackoff (nameV : Val) : BackoffLookup :=
+  match nameV with
+  | .str n =>
+    match BackoffKind.ofName? n with
+    | some k => .kind k
+    | none =>
+      let parts := n.splitOn "."
+      if parts.length < 2 then .fail "ValueError" "~unknown back-off strategy"
+      else
+        let attr := parts.getLast!
+        let modParts := parts.dropLast
+        if modParts.head! == "nomodule" then .fail "pypyr.errors.PyModuleNotFoundError" "~module not found"
+        else if modParts == ["vprobe"] && !(vprobeAttrs.contains attr) && !(attr.startsWith "__") && attr != ""
+        then .fail "AttributeError" "~module has no such attribute"
+        else .outside
+  | .list _ | .dict _ | .set _ => .fail "TypeError" "~unhashable type"
+  | _ => .fail "AttributeError" "~object has no attribute 'rpartition'"
+
+/-- what `backoff_callable = <class>(sleep=…, max_sleep=…, jrc=…, kwargs=…)` gives. -/
+inductive BackoffBuild where
+  | good (bo : BackoffState)
+  | fail (name msg : String)       -- the constructor raises
+  | faulty (yields : Bool)         -- every call goes wrong, see `retryFaulty`
+  | outside
+
+/-- `exponential.__init__`: `self.base = kwargs.get('base', 2) if kwargs else 2`.
+    `ok none` = a base that is no number. -/
+def expBase (argsV : Val) : Except (String × String) (Option Num) :=
+  if !argsV.truthy then .ok (some ⟨2, 0, false⟩)
+  else match argsV with
+    | .dict kvs => match dictGet? kvs (.str "base") with
+      | some b => .ok b.num?
+      | none => .ok (some ⟨2, 0, false⟩)
+    | _ => .error ("AttributeError", "~object has no attribute 'get'")
+
+def maxSleepFalsy (ms : Option Num) : Bool :=
+  match ms with | some m => m.isZero | none => true
+
+/-- The constructors of `pypyr.retries` on the values `retry_loop` hands them.
+    `fixed` / `jitter`: a list sleep becomes the deque (`[]`: `self.queue[-1]` is an IndexError);
+    the other strategies keep the sleep as it is - a list there makes every call go wrong
+    (`n * [..]` is a list: `min(list, max_sleep)`, `list - list` in `random.uniform`, `float * list`
+    raise TypeError; else the list comes back and `time.sleep` rejects it). -/
+def buildBackoff (kind : BackoffKind) (sleepV : Val) (maxSleep : Option Num) (jrcV argsV : Val) : BackoffBuild :=
+  match jrcV.num? with
+  | none => .outside
+  | some jrc =>
+    match kind with
+    | .fixed | .jitter =>
+      match sleepV with
+      | .list [] => .fail "IndexError" "~deque index out of range"
+      | _ => match sleepNums sleepV with
+        | some (sl, lst) => .good (mkBackoff kind sl lst maxSleep jrc ⟨2, 0, false⟩)
+        | none => .outside
+    | .linear | .linearjitter =>
+      match sleepV with
+      | .list _ => .faulty (kind == .linear && maxSleepFalsy maxSleep)
+      | _ => match sleepV.num? with
+        | some sl => .good (mkBackoff kind sl none maxSleep jrc ⟨2, 0, false⟩)
+        | none => .outside
+    | .exponential | .exponentialjitter =>
+      match expBase argsV with
+      | .error (n, m) => .fail n m
+      | .ok none => (match sleepV with
+        | .list _ => .faulty false
+        | _ => if sleepV.num?.isSome then .faulty false else .outside)
+      | .ok (some base) =>
+        match sleepV with
+        | .list _ => .faulty (kind == .exponential && maxSleepFalsy maxSleep && !base.isFloat)
+        | _ => match sleepV.num? with
+          | some sl => .good (mkBackoff kind sl none maxSleep jrc base)
+          | none => .outside
+
 /-- `RetryDecorator.retry_loop`. -/
 def retryLoop (cfg : RetryCfg) (fr : Frame) (inner : Frame → Body) (fuel : Nat) : Body := fun s =>
   let s := { s with ctx := Ctx.set s.ctx "retryCounter" (.int 0) }
   match fmtV s cfg.sleep with
   | .error x => raiseExc s x
   | .ok sleepV =>
+  -- `context.get_formatted_value(self.backoff) if self.backoff else config.default_backoff`: the configured
+  -- default is looked up HERE, when the loop starts - not when the module was loaded, not when the step was parsed
   let nameR : Except Exc Val := match cfg.backoff with
-    | some b => if b.truthy then fmtV s b else .ok (.str "fixed")
-    | none => .ok (.str "fixed")
+    | some b => if b.truthy then fmtV s b else .ok (.str s.defaultBackoff)
+    | none => .ok (.str s.defaultBackoff)
   match nameR with
   | .error x => raiseExc s x
   | .ok nameV =>
@@ -193,31 +361,32 @@ def retryLoop (cfg : RetryCfg) (fr : Frame) (inner : Frame → Body) (fuel : Nat
   match argsR with
   | .error x => raiseExc s x
   | .ok argsV =>
-  let kind? := match nameV with | .str n => BackoffKind.ofName? n | _ => none
-  match kind? with
-  | none => raiseNew s "ValueError" "~unknown back-off strategy"
-  | some kind =>
-  let base : Num := match argsV with
-    | .dict kvs => match dictGet? kvs (.str "base") with
-      | some b => (b.num?).getD ⟨2, 0, false⟩
-      | none => ⟨2, 0, false⟩
-    | _ => ⟨2, 0, false⟩
-  let listOk := match sleepV, kind with
-    | .list _, .fixed | .list _, .jitter => true
-    | .list _, _ => false
-    | _, _ => true
-  match (if listOk then sleepNums sleepV else none), jrcV.num? with
-  | some (sl, lst), some jrc =>
-    let bo := mkBackoff kind sl lst maxSleep jrc base
-    let maxR : Except Exc (Option Nat) := match cfg.max with
-      | some m => if m.truthy then (fmtInt s m).map fun i => some i.toNat else .ok none
+  match lookupBackoff nameV with
+  | .fail n m => raiseNew s n m
+  | .outside => raiseNew s "OutOfDomain" "custom back-off callable"
+  | .kind kind =>
+  match buildBackoff kind sleepV maxSleep jrcV argsV with
+  | .fail n m => raiseNew s n m
+  | .outside => raiseNew s "OutOfDomain" "retry sleep/jrc not numeric"
+  | built =>
+    -- `if self.max: max = context.get_formatted_as_type(self.max, out_type=int) else: max = None`
+    let maxR : Except Exc (Option Int) := match cfg.max with
+      | some m => if m.truthy then (fmtInt s m).map some else .ok none
       | none => .ok none
     match maxR with
     | .error x => raiseExc s x
-    | .ok max => retryIter cfg fr inner max fuel 1 bo s
-  | _, _ => raiseNew s "OutOfDomain" "retry sleep/jrc not numeric"
+    | .ok max =>
+      match built with
+      | .good bo => retryIter cfg fr inner max fuel 1 bo s
+      | .faulty y => retryFaulty cfg fr inner max y s
+      | _ => (s, .ok)     -- not reached
 
 /-! ### run / skip / swallow -/
+
+/-- ghost: log the event "error `e` escaped the body of step `d` and `d` is the one to record it"
+    (`handled`: it came out of called groups and was recorded there). No effect on anything observable. -/
+def logEscape (d : StepDef) (s1 : St) (e : ExcV) (handled : Bool) : St :=
+  if handled then s1 else { s1 with escapes := s1.escapes ++ [⟨d, e, s1.ctx⟩] }
 
 /-- `Step.run_conditional_decorators`. `inner` is the retry loop or the bare invoke. -/
 def runConditional (d : StepDef) (inner : Body) : Body := fun s =>
@@ -232,6 +401,8 @@ def runConditional (d : StepDef) (inner : Body) : Body := fun s =>
       let (s1, r) := inner s
       match r with
       | .err e handled =>
+        -- ghost: the event "an error escaped the body and this step is the one to record it"
+        let s1 : St := logEscape d s1 e handled
         match fmtB s1 d.swallow with
         | .error x => raiseExc s1 x
         | .ok sw =>
@@ -296,14 +467,19 @@ def whileIter (cfg : WhileCfg) (fr : Frame) (inner : Frame → Body) (max : Opti
         let bounded := match max with | some m => m != 0 | none => false
         if bounded then
           if (k : Nat) < max.getD 0 then
-            whileIter cfg fr inner max sleep errorOnMax fuel (k + 1)
-              { s1 with sleeps := s1.sleeps ++ [numToVal sleep] }
+            -- time.sleep(sleep): a negative duration is a ValueError
+            if sleep.n < 0 then raiseNew s1 "ValueError" "sleep length must be non-negative"
+            else
+              whileIter cfg fr inner max sleep errorOnMax fuel (k + 1)
+                { s1 with sleeps := s1.sleeps ++ [numToVal sleep] }
           else if errorOnMax then
             raiseNew s1 "pypyr.errors.LoopMaxExhaustedError" "~while loop reached max"
           else (s1, .ok)
         else
-          whileIter cfg fr inner max sleep errorOnMax fuel (k + 1)
-            { s1 with sleeps := s1.sleeps ++ [numToVal sleep] }
+          if sleep.n < 0 then raiseNew s1 "ValueError" "sleep length must be non-negative"
+          else
+            whileIter cfg fr inner max sleep errorOnMax fuel (k + 1)
+              { s1 with sleeps := s1.sleeps ++ [numToVal sleep] }
     | other => other
 
 /-- `WhileDecorator.while_loop`. -/
@@ -377,8 +553,21 @@ def describe (d : StepDef) (s : St) : Option Exc :=
     else none
   | none => none
 
-/-- `Step.run_step`: `in` arguments, the `description` notification, then the decorator stack. -/
+/-- `set_step_input_context` on an `in` that is no mapping: `len(5)` raises TypeError,
+    `context.update('ab')` ValueError (its elements have length 1, not 2). `none` = nothing raised. -/
+def inFault (d : StepDef) : Option Exc :=
+  match d.inBad with
+  | some (.str _) => some ⟨"ValueError", "~dictionary update sequence element #0 has length 1; 2 is required"⟩
+  | some _ => some ⟨"TypeError", "~object of this type has no len()"⟩
+  | none => none
+
+/-- `Step.run_step`: `in` arguments, the `description` notification, then the decorator stack.
+    A failure of `set_step_input_context` itself (`in` is no mapping) is raised before anything else,
+    outside every decorator: not recorded in `runErrors`, not swallowed, not retried. -/
 def runStepDescribed (d : StepDef) (body : Body) (callee : CofCfg → Body) (fuel : Nat) : Body := fun s =>
+  match inFault d with
+  | some x => raiseExc s x
+  | none =>
   match describe d (setIn d s) with
   | some x => raiseExc (setIn d s) x
   | none => runStepWith d body callee fuel s
